@@ -107,6 +107,7 @@ class Engine(object):
         self.src = SourceIndex()
         self.contracts = {}       # function object -> Contract (used at call sites)
         self.loopspecs = {}       # (qualname, ordinal) -> LoopSpec
+        self.controls_refuted = set()   # (task label, control name) already refuted on an earlier path
         self.transparent_natives = set()
         self.max_paths = 4000
         self.branch_timeout_ms = 3000
